@@ -1,7 +1,12 @@
 package main
 
+import "strings"
+
 type propDef struct {
-	Rules         []string
+	Rules []string
+	// Scope restricts a shared rule to the constructs that bear on this property: rule -> construct-key prefixes.
+	// A rule without an entry contributes all its obligations.
+	Scope         map[string][]string
 	Explanation   string
 	NotDecided    string
 	Technique     string
@@ -15,7 +20,7 @@ const techPath = "SSA dominance / path rules and affine-form dataflow over go/ss
 
 var properties = map[string]*propDef{
 	"C01": {
-		Rules:       []string{"APPLY", "TAB-NOTE", "TAB-DEGREE", "TAB-CHORDS", "TAB-ATTRS", "TAB-DEFAULTS", "EXTENDS", "PLAYLOOP", "NOTE", "OPT", "LOOKUP", "OVERRIDE", "WIRE"},
+		Rules:       []string{"APPLY", "TAB-NOTE", "TAB-DEGREE", "TAB-NOTATION", "TAB-CHORDS", "TAB-ATTRS", "TAB-DEFAULTS", "EXTENDS", "PLAYLOOP", "NOTE", "OPT", "LOOKUP", "OVERRIDE", "WIRE"},
 		Technique:   "affine-form dataflow on play.Key.Apply (pitch = 60 + tonic + degree + attribute / + base - 12) plus " + techTab,
 		Explanation: "the pitch arithmetic as an affine identity of Key.Apply (exactly one bass emission MiddleC+key+degree+base-12 and one tone emission MiddleC+key+degree+attribute per attribute, nothing else; every failed lookup is an error); every row of the letter, accidental, interval-size, chord and attribute tables against a first-principles specification, including the size algorithm for 1..64 x 7 qualities on the extracted model; MiddleC folds to 60 and the default bass to a unison; `extends` is inherited parent-first; the key in force is the one applied by update() before getKey() in the same iteration; flags override instance 0 only; one note-on per key.",
 		NotDecided:  "that the control flow of Degree.simpleSemitone implements the algorithm whose tables and tuples were extracted (the search loop itself is not proved); uint8 wrap-around outside the MIDI range (excluded by the property's premise); everything inside gomidi.",
@@ -27,7 +32,7 @@ var properties = map[string]*propDef{
 		NotDecided:  "floating-point error of the sum of Num/Denom against exact rationals (needs values); absence of uint32 overflow (excluded below 2^28 by the quantifier); gomidi's delta encoding.",
 	},
 	"C03": {
-		Rules:       []string{"TAB-KEYSIG", "TAB-NOTE", "TAB-DEGREE", "TAB-SEARCH", "SCALEWIRE", "ERRFLOW", "ERRDROP", "WIRE", "NAMEDEGREE"},
+		Rules:       []string{"TAB-KEYSIG", "TAB-NOTE", "TAB-DEGREE", "TAB-SEARCH", "SCALEWIRE", "CONVORDER", "ERRFLOW", "ERRDROP", "WIRE", "NAMEDEGREE"},
 		Technique:   techTab + " (narrow claim: preconditions only)",
 		Explanation: "only the table preconditions of the conversion: in all 28 signature rows the tonic built by NewScale carries the key's own accidental; letter pitches, accidental offsets and interval sizes are right; both quality-search lists contain major/perfect, minor/diminished and augmented (what the seven diatonic notes and tritone basses need); Tendency folds to the documented result on all 16 input pairs; NewScale applies a row as sharp/flat/natural correctly.",
 		NotDecided:  "the search in ScaleNote.GetDegree and the letter distance in Name.GetDegree over the 12,936-case product: that is an enumeration over runtime values, nothing sound can be said about it statically with the tools in reach. Most signature-row corruptions do not affect this property at all (only the tonic's accidental matters); they are C13's business.",
@@ -116,4 +121,46 @@ var properties = map[string]*propDef{
 		Explanation: "for each mode and degree the chord named in the table, resolved through chord.yml, has exactly the pitch set of thirds stacked on that degree of the derived scale (right qualities, only scale tones, for all 28 keys because the specification is transposition invariant and TAB-KEYSIG ties each key to its derived scale); names are paired with scale notes by index; every printed chord lexes back as SYLLABLE [accidental] SYMBOL, with `_` exactly where a digit would otherwise lex as NUMBER.",
 		NotDecided:  "the end-to-end pipe `text conv | write` as an execution.",
 	},
+}
+
+// wireScope: which wiring functions bear on which property (construct-key prefixes of the WIRE rule).
+var wireScope = map[string][]string{
+	"C01": {"op.Key.Semitone", "note.Note.Semitone", "chord.Attribute.Semitone", "note.NewDegree", "note.ParseDegree", "chord.", "cmd.newChordMap", "cmd.newWriteCmdArgsFromInputInstances", "cmd.writeCmdArgs.writeToPlay"},
+	"C03": {"astconv.", "op.ScaleNote.", "op.Key.Semitone", "op.Scale.", "note.NewDegree", "cmd.getScale", "cmd.textCmdConvSyllable"},
+	"C05": {"astconv.", "op.ScaleNote.", "op.Key.Semitone", "op.Scale.", "note.NewDegree", "note.Note.Semitone", "note.ParseDegree", "chord.Attribute.Semitone", "cmd.getScale", "cmd.textCmdConvSyllable", "cmd.newWriteCmdArgsFromInputInstances", "cmd.writeCmdArgs.writeToPlay"},
+	"C06": {"midix.", "cmd.writeCmdArgs.writeToPlay"},
+	"C07": {"astconv.Meta", "astconv.ASTConverter.Convert|meta", "midix.NewTrackOp", "cmd.newWriteCmdArgsFromInputInstances", "cmd.writeCmdArgs.writeToPlay", "cmd.getScale"},
+	"C08": {"midix."},
+	"C09": {"astconv.MetaInstanceModifierImpl.", "note.NewDegree", "note.ParseDegree", "chord.Map."},
+	"C10": {"note.ParseDegree", "note.NewDegree", "cmd.newWriteCmdArgsFromInputInstances", "astconv.ASTConverter.Convert", "astconv.ValuesConverterImpl.", "astconv.MetaConverterImpl."},
+	"C11": {"astconv.SyllableChordConverter.newScaleNote", "astconv.DegreeChordConverter.", "astconv.SyllableChordConverter.Convert", "astconv.ValuesConverterImpl.", "cmd.infoCmdChordDescribe.RunE"},
+	"C13": {"op.Scale.", "op.ScaleNote.Semitone", "op.Key.Semitone", "desc.Key.Describe", "cmd.getScale", "cmd.infoKeyCmdDescribe"},
+	"C15": {"note.ParseDegree", "note.NewDegree", "note.Note.Semitone", "chord.Attribute.Semitone", "desc.Attribute.Describe", "cmd.infoCmdAttrDescribe", "cmd.getRootNote", "chord.Map.GetAttribute", "chord.GenerateAttributes"},
+	"C16": {"chord.", "desc.Chord.Describe", "desc.Attribute.Describe", "cmd.infoCmdChordDescribe", "cmd.newChordMap"},
+	"C17": {"desc.Key.Describe", "op.DiatonicChorderImpl.", "cmd.infoKeyCmdDescribe", "op.Scale.", "op.ScaleNote.Semitone", "cmd.getScale", "chord.Map."},
+}
+
+func init() {
+	for p, pfx := range wireScope {
+		if pd := properties[p]; pd != nil {
+			if pd.Scope == nil {
+				pd.Scope = map[string][]string{}
+			}
+			pd.Scope["WIRE"] = pfx
+		}
+	}
+}
+
+// inScope: the obligation bears on the property (floor / anchor obligations of a rule always do).
+func (pd *propDef) inScope(rule, key string) bool {
+	pfx, ok := pd.Scope[rule]
+	if !ok || key == "floor" || strings.HasPrefix(key, "anchor:") {
+		return true
+	}
+	for _, p := range pfx {
+		if strings.HasPrefix(key, p) {
+			return true
+		}
+	}
+	return false
 }
